@@ -17,7 +17,7 @@ func init() {
 		Title: "No transaction input can crash or halt the node",
 		Explain: "Decides structural necessary conditions: (relock) no function reachable from the consensus hooks calls, while it holds a sync.Mutex/RWMutex of an object, a function that acquires the same lock of the same object (non re-entrant: the ABCI call would never return); " +
 			"(coin) every amount of the transaction message that is turned into a Coin and reaches a partial coin operation (Plus/Minus/LessThan*: process exit on mismatching currencies, nil dereference on an unknown currency) or a value-storing call has its currency pinned / its validity tested on all paths before, in the run function or on all paths to Validate's success return; the fee price likewise (ValidateFee compares the currency name exactly); " +
-			"(split) no element of a strings.Split result of transaction-controlled data is indexed at a constant position >= 1 without a length test; (errfirst) a pointer returned together with an error is not dereferenced before the error is tested; " +
+			"(split) no element of a strings.Split result of transaction-controlled data is indexed at a constant position >= 1 without a length test; (errfirst) a pointer returned together with an error by a parser / lookup fed directly with a message field is not dereferenced before the error (or the pointer) is tested; " +
 			"(fallback) the router's lookup returns a non-nil handler on a miss; (exit) every explicit process-exit / panic site reachable from CheckTx/DeliverTx is listed.",
 		NotDecided: "implicit runtime panics outside these classes (nil maps, type assertions, arithmetic), unbounded resource use, panics inside go-ethereum's interpreter",
 		Run:        runC18,
@@ -29,6 +29,7 @@ func runC18(r *Run) {
 	checkCoin(r)
 	checkSplit(r)
 	checkFallback(r)
+	checkErrFirst(r)
 	checkExitListing(r)
 }
 
@@ -843,4 +844,154 @@ func checkExitListing(r *Run) {
 		})
 	}
 	r.Info("C18.exit", "summary", "explicit exit/panic sites reachable from CheckTx/DeliverTx", itoa(int64(n))+" sites listed")
+}
+
+// ---------------------------------------------------------------------------------------------
+// C18.errfirst: a pointer returned together with an error is not dereferenced before the error (or the pointer) is tested.
+
+// errfirstExempt: one named symbol with the reason (the only instance on the tree for which no failing input exists).
+var errfirstExempt = map[string]string{
+	"action/eth.refundTokens": "ParseRedeem of tracker.SignedETHTx succeeded when the redeem was accepted with the same ABI, and the ETH options are immutable (ValidateETH requires DeepEqual with the stored options): the error cannot occur here",
+}
+
+func checkErrFirst(r *Run) {
+	p := r.P
+	roots := p.Roots()
+	reach := map[*ssa.Function]bool{}
+	for _, rn := range []string{"check", "deliver", "begin", "end"} {
+		rs, _ := p.Reach(roots[rn])
+		for f := range rs {
+			reach[f] = true
+		}
+	}
+	nCalls := 0
+	for _, fn := range sortedFns(reach) {
+		if fn.Blocks == nil || !inRepo(fn) {
+			continue
+		}
+		fn := fn
+		allInstrs(fn, func(ins ssa.Instruction) {
+			c, ok := ins.(*ssa.Call)
+			if !ok {
+				return
+			}
+			tup, ok := c.Type().(*types.Tuple)
+			if !ok || tup.Len() < 2 || !isErrorType(tup.At(tup.Len()-1).Type()) {
+				return
+			}
+			sc := c.Call.StaticCallee()
+			if sc == nil || !inRepo(sc) || sc.Blocks == nil {
+				return
+			}
+			// the callee can return (nil pointer, non-nil error)
+			ptrIdx := -1
+			for i := 0; i < tup.Len()-1; i++ {
+				if _, isPtr := tup.At(i).Type().Underlying().(*types.Pointer); isPtr {
+					ptrIdx = i
+				}
+			}
+			if ptrIdx < 0 {
+				return
+			}
+			nilOnErr := false
+			for _, ret := range returnsOf(sc) {
+				if len(ret.Results) == tup.Len() && isNilConst(ret.Results[ptrIdx]) && !isNilConst(ret.Results[tup.Len()-1]) {
+					nilOnErr = true
+				}
+			}
+			if !nilOnErr {
+				return
+			}
+			// only lookups / parsers fed with transaction-supplied data: the error is then input-triggerable
+			// (errors of lookups on protocol-generated records are "cannot happen" beliefs this rule does not judge)
+			fed := false
+			var direct func(v ssa.Value, d int) bool
+			direct = func(v ssa.Value, d int) bool {
+				pa := pathOf(v)
+				if isMsgRoot(p, pa.Root) && len(pa.Fields) > 0 {
+					return true
+				}
+				if d > 2 {
+					return false
+				}
+				switch x := v.(type) {
+				case *ssa.Convert:
+					return direct(x.X, d+1)
+				case *ssa.ChangeType:
+					return direct(x.X, d+1)
+				case *ssa.Call:
+					// a conversion method on the field: msg.Address.Bytes(), msg.Name.String()
+					if len(x.Call.Args) == 1 && !x.Call.IsInvoke() {
+						return direct(x.Call.Args[0], d+1)
+					}
+				}
+				return false
+			}
+			for _, a := range c.Call.Args {
+				if direct(a, 0) {
+					fed = true
+				}
+			}
+			if !fed {
+				return
+			}
+			var ptr, errv *ssa.Extract
+			for _, ref := range *c.Referrers() {
+				if e, ok := ref.(*ssa.Extract); ok {
+					if e.Index == ptrIdx {
+						ptr = e
+					}
+					if e.Index == tup.Len()-1 {
+						errv = e
+					}
+				}
+			}
+			if ptr == nil {
+				return
+			}
+			nCalls++
+			// dereferences of the pointer
+			var derefs []ssa.Instruction
+			for _, ref := range *ptr.Referrers() {
+				switch x := ref.(type) {
+				case *ssa.FieldAddr:
+					if x.X == ssa.Value(ptr) {
+						derefs = append(derefs, x)
+					}
+				case *ssa.UnOp:
+					if x.Op == token.MUL && x.X == ssa.Value(ptr) {
+						derefs = append(derefs, x)
+					}
+				}
+			}
+			if len(derefs) == 0 {
+				return
+			}
+			var edges []Edge
+			if errv != nil {
+				edges = append(edges, condEdges(fn, func(cond ssa.Value, _ *ssa.If) int { return nilCond(cond, func(y ssa.Value) bool { return y == ssa.Value(errv) }) })...)
+			}
+			edges = append(edges, condEdges(fn, func(cond ssa.Value, _ *ssa.If) int { return -nilCond(cond, func(y ssa.Value) bool { return y == ssa.Value(ptr) }) })...)
+			after := reachFromInstr(c, edges, nil)
+			bad := ssa.Instruction(nil)
+			for _, d := range derefs {
+				if after[d] {
+					bad = d
+				}
+			}
+			if why, ex := errfirstExempt[fname(fn)]; ex && bad != nil {
+				r.Info("C18.errfirst", fname(fn), "result of "+fname(sc)+" used before its error is tested", "exempt: "+why)
+				return
+			}
+			pos := p.ipos(c)
+			if bad != nil {
+				pos = p.ipos(bad)
+			}
+			r.Check(bad == nil, "C18.errfirst", fname(fn), "result of "+fname(sc)+" is dereferenced only behind its error (or nil) test", "every dereference lies behind err == nil / ptr != nil",
+				fname(sc)+" returns a nil pointer together with an error, and the pointer is dereferenced on a path on which neither was tested: a failing lookup on transaction-supplied data panics and the panic handler closes the application", pos)
+		})
+	}
+	if nCalls < 15 {
+		fail("C18.errfirst: only %d (pointer, error) lookups fed with message data found on the transaction paths", nCalls)
+	}
 }
